@@ -9,8 +9,8 @@ CONSTANTS
   MaxMerges = 1
   PauseMode = "slow"
   HazFD = FALSE
-  HazClose2 = FALSE
-  HazFMMem = FALSE
+  LegacyClose2 = FALSE
+  LegacyFMMem = FALSE
 SYMMETRY Symm
 VIEW View
 INVARIANTS TypeOK RWExclusion LockBalanced NoPanic ContractHolds
